@@ -41,6 +41,11 @@ CHECKS = {
         technique="TLA+ state generator with the loader's contract as an operator (Checkpoint.tla), consequences checked by TLC in every reachable state; simulated reachable target states installed in a model Redis and the real LoadCheckpoint's result and post-state compared with the contract",
         text="TLC explores all target states reachable by three sender writes plus one partial damage from three sources (two prefix-related) into three databases (350k states) and checks the contract's consequences; a seeded sample of those states (quick ~4k, thorough more) is replayed: installed over TCP with shuffled hash-field order, real LoadCheckpoint called per source, returned (run id, offset, db, error) and the removal of exactly the stale own entries compared.",
         note="mredis stands in for the target; offsets are distinct (no ties); the writer side is bound by C04's check."),
+    "C20": dict(
+        level="model_checking", design="DESIGN.md 4/C20",
+        technique="TLA+ model of the probe/retry loop (Supervisor.tla) checked by TLC against the contract for every scenario of node answers, termination under WF; every canonical scenario (SupervisorCases.tla) replayed into the real supervisor through an injected connection factory",
+        text="TLC checks all 19 683 assignments of {master, slave, error} to 3 nodes x 3 rounds against the contract (chosen node reported master in the first round that had one, every other node listed exactly once, error exactly when none) plus termination; the 1 899 canonical scenarios are all replayed against the real GetSlotState with real INFO text, connect errors, command errors and role-less output and real back-off.",
+        note="Injected factory (build tag verif); retry budget 2 for the product, production budget 6 only on no-master scenarios in the thorough tier; 3 nodes."),
 }
 
 NOT_YET = "check not built yet in this session (work in progress; see DESIGN.md section 7 for the order)"
